@@ -266,7 +266,8 @@ def check_linker_read(cfg, w, rep, lf):
         tgt_ok = False
         for o in inner:
             h = prog.resolve_op(o.body, o.term.args[0], IDENT, o.blk)
-            if h and all(x.kind == "field" and x.info[0] == own and x.info[1] == "fd" for x in h):
+            if h and all(x.kind == "field" and x.info[0] == own and any(
+                    fn_ == x.info[1] and re.search(r"(^|::)fs::File$", fty_) for (_, fn_, fty_) in w.adt_fields(own)) for x in h):
                 tgt_ok = True
         from .c01 import fed_slice_exact
         exact = fed_slice_exact(w, lf, body, blk, t, own) if has_buf and (tgt_ok or filled) else None
